@@ -140,6 +140,10 @@ pub struct CoopCase {
     pub plans: Vec<Vec<WOp>>,
     /// scheduling decisions (index into the runnable set, taken modulo its size)
     pub sched: Vec<u32>,
+    /// cancel mode over a program with cycles through functions without recovery (requests may
+    /// end in cycle panics; waiters may see PropagatedPanic)
+    #[serde(default)]
+    pub plain_cycles: bool,
 }
 
 #[derive(Clone, Debug)]
@@ -216,7 +220,8 @@ pub fn gen_coop_case(tape: &[u32], which: &str) -> CoopCase {
         "C14" => true,
         _ => t.chance(2, 5),
     };
-    let pf = if which == "C14" {
+    let plain_cycles = which == "C21" && lattice && t.chance(1, 3);
+    let pf = if which == "C14" || plain_cycles {
         profile(2)
     } else if lattice {
         let mut p = profile(1);
@@ -281,7 +286,7 @@ pub fn gen_coop_case(tape: &[u32], which: &str) -> CoopCase {
     };
     let ns = 60 + t.pick(200);
     let sched = (0..ns).map(|_| t.raw()).collect();
-    CoopCase { prog, mode, plans, sched }
+    CoopCase { prog, mode, plans, sched, plain_cycles }
 }
 
 pub struct CoopRun {
@@ -783,7 +788,7 @@ pub fn run_coop_case(which: &str, case: &CoopCase) -> SeqOutcome {
                     Err(_) => {}
                     Ok(_) => {
                         // a thread waiting on a panicking (cyclic) computation of another thread may see PropagatedPanic
-                        let tolerated = matches!(case.mode, Mode::PlainCycles) && matches!(p, Pan::Cancelled(k) if k.contains("PropagatedPanic")) && blocked_threads.contains(&(t as u32 + 1));
+                        let tolerated = (matches!(case.mode, Mode::PlainCycles) || case.plain_cycles) && matches!(p, Pan::Cancelled(k) if k.contains("PropagatedPanic")) && blocked_threads.contains(&(t as u32 + 1));
                         if !tolerated {
                             v.push(viol("unexpected-panic", format!("thread {} get({node},{arg}): {}", t + 1, p.text())));
                         }
@@ -797,7 +802,7 @@ pub fn run_coop_case(which: &str, case: &CoopCase) -> SeqOutcome {
     // provisional value and hands that value to its top-level caller. Signature: inside the
     // top-level call, this thread completed a plain function that called a function with recovery
     // which, at that moment, had been started by another thread and not yet completed.
-    if matches!(case.mode, Mode::PlainCycles) {
+    if matches!(case.mode, Mode::PlainCycles) || case.plain_cycles {
         let mut open_by: std::collections::BTreeMap<u8, Vec<u32>> = Default::default();
         let mut escaped: BTreeSet<(u32, u32)> = BTreeSet::new(); // (tid, call index)
         let mut cur_call: std::collections::BTreeMap<u32, u32> = Default::default();
